@@ -790,10 +790,10 @@ def gen(tier, rng):
         yield ('history_random', 2, [cap, rand_history(rng, rng.choice([3, 6, 10, 20, 40]))])
 
 RULE = ('fn 1 (memoize): every key sequence up to the length bound over 4 keys (two returning, one raising a pybtex error, one raising a foreign exception) x capacities 0..3, plus random runs up to capacity 1024 with more distinct keys than the capacity; '
-        'fn 2 (API histories): pinned defect inputs, a history with 1100 fresh format.name$ calls at the shipped capacity, every history of length <= 2 over a menu of 13 calls (each also inside errors.capture(), plus set_strict_mode on/off; 28 in all) and of length 3 (thorough: also every seventh one of length 4) over the 22 of them that are not capture() variants of state-writing calls, cache capacity 2 (thorough: length 3 over all 28), and random histories up to length 40; every self-contained call is also re-run alone in a reset process state. '
+        'fn 2 (API histories): pinned defect inputs, a history with 1100 fresh format.name$ calls at the shipped capacity, every history of length <= 2 over a menu of 15 calls (incl. two opaque writer/engine calls; each also inside errors.capture(), plus set_strict_mode on/off; 31 in all) and of length 3 (thorough: also every seventh one of length 4) over the 22 of them that are not capture() variants of state-writing calls, cache capacity 2 (thorough: length 3 over all 31), a stream where an earlier reader defines/redefines macros through each of the 7 parse entry points (and a live reader, and LowLevelParser) before independent probe parses through each entry point, and random histories up to length 40; every self-contained call is also re-run alone in a reset process state. '
         'distinct = distinct (function, argument); non-trivial = more distinct keys than the capacity (fn 1) / at least two kinds of call (fn 2)')
-EXHAUSTIVE = {'quick': 'memoize: all key sequences of length <= 6 over 4 keys x capacities 0..3; API histories: all sequences of length <= 2 over the 28-call menu, all of length 3 over its 22-call core',
-              'thorough': 'memoize: all key sequences of length <= 7 over 4 keys x capacities 0..3; API histories: all sequences of length <= 3 over the 28-call menu, every seventh one of length 4 over its 22-call core'}
+EXHAUSTIVE = {'quick': 'memoize: all key sequences of length <= 6 over 4 keys x capacities 0..3; API histories: all sequences of length <= 2 over the 31-call menu, all of length 3 over its 22-call core',
+              'thorough': 'memoize: all key sequences of length <= 7 over 4 keys x capacities 0..3; API histories: all sequences of length <= 3 over the 31-call menu, every seventh one of length 4 over its 22-call core'}
 TRUSTED_BASE = ['modelled (not verified) code: pybtex/utils.py memoize; pybtex/errors.py; pybtex/bibtex/builtins.py _split_names/_format_name/format.name$; pybtex/database/input/bibtex.py month_names, LowLevelParser command level, Parser; pybtex/database/input/__init__.py BaseParser; BibliographyData.add_entry',
                 'the lexical level of .bib files is not modelled: the harness renders tokenised commands to text (harness/props/c18.py render)',
                 'format_bibtex_name (C11) enters the model as a table measured from the real function for the pairs each history reaches']
